@@ -19,7 +19,7 @@ LEVEL_TEXT = ("AdminAuth.tla holds the route table of the four administrative li
               "(route, target) x setting is sent as a real HTTP request to the real api.API / metrics.Metrics / pprof.PPROF / "
               "playback.Server, each with the real auth.Manager; TLC evaluates the statement on every observed "
               "(status, body class, canary leak, state changed) record")
-LEVEL_NOTE = ("bounded: 12 user lists x trusted proxy on/off, 8 credential placements, 3 forwarded addresses; quick tier "
+LEVEL_NOTE = ("bounded: 13 user lists x trusted proxy on/off, 8 credential placements, 4 forwarded addresses; quick tier "
               "samples settings per route; status clause left open for non-canonical URLs (router redirects), unknown "
               "URLs / wrong methods on the playback listener and playback requests without a valid path name "
               "(no data / no state change is still demanded); parents and protocol servers are stubs")
